@@ -151,7 +151,7 @@ InterpEv == /\ IsEvent("interp")
 PErr == /\ IsEvent("perr")
         /\ LET e == Rec[l] IN
            /\ Require(e.def = E.id /\ ~E.perr /\ ParseSpecT(E, T, e.input).k = "err", l, "perr: event outside the domain", e.def)
-           /\ Require(/\ e.display = ParseErrorDisplay /\ e.dyn_display = ParseErrorDisplay /\ e.padded = ParseErrorDisplay
+           /\ Observe(/\ e.display = ParseErrorDisplay /\ e.dyn_display = ParseErrorDisplay /\ e.padded = ParseErrorDisplay
                        /\ e.debug = ParseErrorDebug /\ e.descr = ParseErrorDescr
                        /\ e.source_none /\ e.eq_copy /\ e.hash_same,
                        l, "perr", [def |-> E.id, display |-> e.display, debug |-> e.debug, padded |-> e.padded,
